@@ -208,7 +208,7 @@ class Dispatch(Unit):
                 fails.append(dict(call=rp['call'], observed=rp['observed'], witness='dispatch'))
                 break
         return dict(name=self.name + '.random-configurations', evaluations=cnt, failures=fails,
-                    bound='seeded listener configurations (0..5 per class, type filters from a 4-class hierarchy, random ignore/raise)')
+                    bound='seeded histories of 1..4 dispatches with listeners registered before and between them (0..7 + 0..2 per round, type filters from a 4-class hierarchy, random ignore)')
 
 
 def _is_one(x):
@@ -229,7 +229,10 @@ class PC(Packet):
 
 
 def replay_dispatch(which, rng=None):
-    """The executable contract on the real Connection with concrete listeners."""
+    """The executable contract on the real Connection with concrete listeners, over a HISTORY: listeners are registered,
+    a packet is dispatched, more listeners are registered (for the same class, a superclass, a subclass), the next packet is
+    dispatched, ... - every dispatch must follow the lists as they are at that moment (state carried between dispatches,
+    such as a per-class cache of applicable listeners, must not show: seeded change C13-r8)."""
     import random
     rng = rng or random.Random(7)
     conn = native_connection()
@@ -238,23 +241,6 @@ def replay_dispatch(which, rng=None):
     trace = []
     classes = [Packet, PA, PB, PC]
     expected_groups = {(e, o): [] for e in (False, True) for o in (False, True)}
-    for idx in range(rng.randrange(0, 8)):
-        early, outgoing = rng.random() < 0.5, rng.random() < 0.5
-        types_ = tuple(rng.sample(classes, rng.randrange(1, 3)))
-        beh = rng.choice(['ret', 'ret', 'ret', 'ignore'])
-
-        def cb(packet, idx=idx, beh=beh):
-            trace.append(idx)
-            if beh == 'ignore':
-                raise IgnorePacket()
-        kw = {}
-        if early:
-            kw['early'] = True
-        if outgoing:
-            kw['outgoing'] = True
-        Connection.register_packet_listener(conn, cb, *types_, **kw)
-        expected_groups[(early, outgoing)].append((idx, types_, beh))
-    pkt = rng.choice([PA, PB, PC, Packet])()
     main = []
     if which == '_react':
         conn.reactor = types.SimpleNamespace(react=lambda p: main.append('react') or trace.append('MAIN'))
@@ -262,30 +248,59 @@ def replay_dispatch(which, rng=None):
     else:
         conn.options = types.SimpleNamespace(compression_enabled=False, compression_threshold=-1)
         conn.socket = 'SOCK'
-        pkt.write = lambda *a: main.append(a) or trace.append('MAIN')
         outgoing = True
-    k, v = native_call(getattr(conn, which), pkt)
-    want = []
-    stopped = False
-    for early in (True, False):
-        if not early and not stopped:
-            want.append('MAIN')
-        for idx, types_, beh in expected_groups[(early, outgoing)]:
+    idx = 0
+    rounds = rng.choice([1, 1, 2, 3, 4])
+    sent = []
+    for rnd in range(rounds):
+        for _ in range(rng.randrange(0, 8) if rnd == 0 else rng.randrange(0, 3)):
+            early, out_flag = rng.random() < 0.5, rng.random() < 0.5
+            types_ = tuple(rng.sample(classes, rng.randrange(1, 3)))
+            beh = rng.choice(['ret', 'ret', 'ret', 'ignore'])
+
+            def cb(packet, idx=idx, beh=beh):
+                trace.append(idx)
+                if beh == 'ignore':
+                    raise IgnorePacket()
+            kw = {}
+            if early:
+                kw['early'] = True
+            if out_flag:
+                kw['outgoing'] = True
+            Connection.register_packet_listener(conn, cb, *types_, **kw)
+            expected_groups[(early, out_flag)].append((idx, types_, beh))
+            idx += 1
+        # later rounds prefer a class that has been dispatched before (what a cache would key on)
+        cls = rng.choice(sent) if sent and rng.random() < 0.6 else rng.choice([PA, PB, PC, Packet])
+        sent.append(cls)
+        pkt = cls()
+        if which != '_react':
+            pkt.write = lambda *a: main.append(a) or trace.append('MAIN')
+        del trace[:]
+        k, v = native_call(getattr(conn, which), pkt)
+        want = []
+        stopped = False
+        for early in (True, False):
+            if not early and not stopped:
+                want.append('MAIN')
+            for i_, types_, beh in expected_groups[(early, outgoing)]:
+                if stopped:
+                    break
+                if isinstance(pkt, types_):
+                    want.append(i_)
+                    if beh == 'ignore':
+                        stopped = True
             if stopped:
                 break
-            if isinstance(pkt, types_):
-                want.append(idx)
-                if beh == 'ignore':
-                    stopped = True
-        if stopped:
-            break
-    bad = None
-    if k != 'ok':
-        bad = '%s %r' % (k, v)
-    elif trace != want:
-        bad = 'call trace %r, documented order gives %r' % (trace, want)
-    return dict(confirmed=bad is not None, call='%s with %d listeners on a %s' % (which, sum(len(g) for g in expected_groups.values()),
-                                                                               type(pkt).__name__), observed=bad or 'conforms')
+        bad = None
+        if k != 'ok':
+            bad = '%s %r' % (k, v)
+        elif trace != want:
+            bad = 'call trace %r, documented order gives %r' % (trace, want)
+        if bad:
+            return dict(confirmed=True, call='%s, dispatch %d of a history (classes dispatched so far: %s) with %d listeners registered, on a %s'
+                        % (which, rnd + 1, [c.__name__ for c in sent], idx, type(pkt).__name__), observed=bad)
+    return dict(confirmed=False, call='%s over a history of %d dispatches' % (which, rounds), observed='conforms')
 
 
 class Register(Unit):
